@@ -556,8 +556,9 @@ def all_addresses(info):
     return info.addresses_by_version(IPVersion.All)
 
 
-def run_case(case):
-    """run one scenario on the real code; returns the observation dict"""
+def run_case(case, proj=False):
+    """run one scenario on the real code; returns the observation dict.  proj: also record the block logs of every host's
+    registry / broadcast tasks / queues, of every browser's scheduler and of every cache purge (harness/c07proj.py)"""
     from zeroconf import ServiceInfo, ServiceListener
     from zeroconf.asyncio import AsyncServiceBrowser, AsyncServiceInfo
 
@@ -588,6 +589,7 @@ def run_case(case):
     unreg_calls = []  # [t, svc]: explicit async_unregister_service calls (never awaited by this harness)
     close_unregs = []  # [t, svc, host]: services still registered when their host is closed (withdrawn by async_close itself)
     net.refused = []
+    ignored = []  # [position in the raw trace, t, datagram, host]: deliveries the receiving listener did not parse
     drop = case["net"].get("drop")
     drop_dgram = None
     if isinstance(drop, dict):  # {"dgram": send index, "mode": "all" | "remote"}
@@ -606,6 +608,8 @@ def run_case(case):
         t = now()
         d = len(net.log)
         net.log.append((t, src.name, addr[0], addr[1], data))
+        if net.on_send is not None:  # (the block recorder attributes the datagram to the block that sent it)
+            net.on_send(t, src, data, addr)
         v6 = ":" in addr[0]
         if fam is None:
             fam = 6 if v6 else 4
@@ -647,7 +651,12 @@ def run_case(case):
         if tr is None or tr.closed or hstate[h.idx] != "up":
             return
         trace.append([now(), "dlv", d, src.idx, h.idx, 1 if mc else 0, items])
+        before = tr.protocol.last_message
         tr.protocol.datagram_received(data, (src.ip, src.port) if fam == 4 else (src.ip6, src.port, 0, SCOPE))
+        if tr.protocol.last_message is before:
+            # observed, not recomputed: the listener returned before parsing (duplicate-packet guard, oversize).  The link trace keeps
+            # the delivery (on a one-listener host an ignored verbatim repeat is a no-op, C16); the projection report needs to know
+            ignored.append([len(trace) - 1, now(), d, h.idx])
 
     def sendto(h, tr, data, addr=None):
         if tr.closed:
@@ -878,7 +887,20 @@ def run_case(case):
                 hstate[i] = "closed"
                 await h.zc._async_close()
 
-    sim.run(main)
+    ptap = None
+    if proj:
+        from . import c07proj
+
+        ptap = c07proj.ProjTap(sim, trace)
+        ptap.install()
+    try:
+        sim.run(main)
+    finally:
+        if ptap is not None:
+            ptap.remove()
+    if ptap is not None and not any(e[1].startswith("regfail") or e[1] == "reg?" for e in trace):
+        # (positions in the block log refer to the raw trace; a run with a refused registration has entries that are filtered out below)
+        out["proj"] = ptap.snapshot(hosts)
     out["trace"] = [e for e in trace if not e[1].startswith("regfail") and e[1] != "reg?"]
     out["regfail"] = [e for e in trace if e[1].startswith("regfail") or e[1] == "reg?"]
     out["lookups"] = lookups
@@ -887,6 +909,7 @@ def run_case(case):
     out["unreg_calls"] = unreg_calls
     out["close_unregs"] = close_unregs
     out["refused"] = net.refused
+    out["ignored"] = ignored
     out["errors"] = [str(e.get("exception") or e.get("message"))[:200] for e in sim.errors]
     out["ndeliveries"] = net.n
     out["targets"] = net.targets
@@ -1717,9 +1740,9 @@ def k4_answered_by_train(case, obs, tr, w):
     return False
 
 
-def check_case(case, res, ctx, tag, lean_jobs):
+def check_case(case, res, ctx, tag, lean_jobs, proj=False):
     """run + oracle + Python monitors; queue the Lean evaluation"""
-    obs = run_case(case)
+    obs = run_case(case, proj)
     res.evaluations += 1
     tr = norm_trace(case, obs)
     endT = obs["endT"]
@@ -1852,6 +1875,37 @@ def lean_compare(res, lean_jobs):
             res.disagree("lean-monitors", brief, py, out)
 
 
+def proj_report(res, proj_jobs):
+    """side report (statistics, never a verdict): the projection hypotheses of `C07_convergence_from_models_partial` evaluated by the
+    driver on the block logs of the un-dropped run of every scenario (hosts with one IPv4 socket)"""
+    from concurrent.futures import ThreadPoolExecutor
+
+    from . import c07proj
+
+    if not proj_jobs:
+        return
+    lines = [j[3] for j in proj_jobs]
+    try:
+        k = 4 if len(lines) >= 16 else 1
+        with ThreadPoolExecutor(k) as ex:
+            parts = list(ex.map(C.run_driver, [lines[j::k] for j in range(k)]))
+    except C.DriverUnavailable as ex:
+        res.notes.append("projection report: driver unavailable: %s" % ex)
+        return
+    outs = [None] * len(lines)
+    for j, part in enumerate(parts):
+        outs[j::k] = part
+    shown = {}
+    for (tag, cmd, key, _line), ans in zip(proj_jobs, outs):
+        if not c07proj.tally(res, cmd, ans):
+            failing = " ".join(t for t in (ans or "").split() if t.endswith("=0") or t.startswith("rej=") and not t.endswith("-")) or (ans or "")[:40]
+            if shown.setdefault((cmd, failing), 0) < 1:
+                shown[(cmd, failing)] += 1
+                if len([n for n in res.notes if n.startswith("projection report")]) < 12:
+                    res.notes.append("projection report (statistics only): %s %s %s -> %s" % (cmd, tag, key, failing))
+    res.count("proj:lines", len(lines))
+
+
 def drop_choices(rng, n, k):
     if n <= 0:
         return []
@@ -1881,12 +1935,23 @@ def run_inner(ctx):
     lean_jobs = []
     counts = {"runs": 0, "sampled": 0, "failed": 0}
 
-    def one(case, tag, force_lean=False):
+    proj_jobs = []
+
+    def one(case, tag, force_lean=False, proj=False):
         jobs = []
         nv = len(res.violations)
-        obs = check_case(case, res, ctx, tag, jobs)
+        obs = check_case(case, res, ctx, tag, jobs, proj)
         brief, tr, endT, mon, conc = jobs[0]
         counts["runs"] += 1
+        if proj and obs.get("proj") and case.get("stack", "4") == "4" and not case.get("listen"):
+            from . import c07proj
+
+            try:
+                ign = {x[0] for x in obs.get("ignored", [])}
+                tr_proc = norm_trace(case, dict(obs, trace=[e for k, e in enumerate(obs["trace"]) if k not in ign]))
+                proj_jobs.extend((tag,) + x for x in c07proj.lines_for(case, obs, lean_line(tr, endT), lean_line(tr_proc, endT), spell_type, svc_name))
+            except Exception as ex:  # a side report must never break the check
+                res.count("proj:line-builder-error:%s" % type(ex).__name__)
         interesting = any(mon.values()) or bool(conc) or len(res.violations) > nv
         if interesting:
             counts["failed"] += 1
@@ -1902,7 +1967,7 @@ def run_inner(ctx):
         res.count("corpus")
     for i in range(n_scen):
         case = gen_case(rng, i, 0.04 if not thorough else 0.12)
-        base = one(case, "gen/%d" % i)
+        base = one(case, "gen/%d" % i, proj=ctx.get("driver_ok") and not ctx.get("widened") or bool(os.environ.get("VERIF_C07_PROJ")))
         res.count("family:" + case.get("family", "short"))
         n = base["ndeliveries"]
         # "the loss of any single datagram": (1) one delivery of it (one receiver misses it) -- swept for the first scenarios of the
@@ -1942,6 +2007,7 @@ def run_inner(ctx):
                         "monitor/conclusion/oracle" % lean_frac, counts["runs"]))
     if ctx.get("driver_ok"):
         lean_compare(res, lean_jobs)
+        proj_report(res, proj_jobs)
     res.rule = ("random scenarios (2-5 hosts, up to 30% started late; 1-6 services of 1-3 types, IPv4 / IPv6-only / dual, default and non-default "
                 "TTLs, with register / update / unregister / re-register at boundary-biased gaps; 1-4 browsers before/during/after, 30% of them one "
                 "browser object for several types; types / instance labels / host names in mixed case; optional close; hosts with one IPv4 socket, one "
